@@ -298,32 +298,20 @@ theorem sem_of_start {S : Nat → Prop} {pr : Proc} (h : Start S pr) :
   · intro d hd; rw [h.nofd.2.1] at hd; simp at hd
   · intro x hx; rw [h.nofd.2.2] at hx; simp at hx
 
-/-- **The property, full strength** (stated; see `extract_confined_partial` for what is proved):
-for every finite sequence of entries of the five kinds with arbitrary names and link
-targets, every initial content of the file system (inside and outside the target) and
-every option set with the three SECURE flags, an extraction touches nothing outside. -/
-def ExtractConfined : Prop :=
-  ∀ (fl : XFlags) (es : List Entry) (S : Nat → Prop) (pr : Proc),
-    SecureFlags fl → (∀ e ∈ es, EntryStrings e) → Start S pr →
-    Confined S pr ((extractArchive fl es).run pr).2
-
-/-- **Proved part**: the same, for sequences in which hard-link entries carry no
-body (`NoHardlinkData`; plain tar hard links).  Everything else of the quantifier
-is covered: all names and link targets, all five kinds, any order, any initial
-tree, UNLINK / NO_OVERWRITE / SAFE_WRITES / PERM / TIME on or off, the deferred
-fix-ups at close.
-
-What is missing for `ExtractConfined`: for a hard-link entry *with* data
-`create_filesystem_object` calls `lstat(a->name)` after a successful `linkat`;
-the proof needs the lemma "that `lstat` sees the link just made" (a frame lemma
-for `walk` under `putAt`) to exclude the branch "link made to a symlink, `lstat`
-fails, metadata still pending". -/
-theorem extract_confined_partial (fl : XFlags) (es : List Entry) (S : Nat → Prop) (pr : Proc)
-    (hfl : SecureFlags fl) (hes : ∀ e ∈ es, EntryStrings e ∧ NoHardlinkData e) (hst : Start S pr) :
+/-- **The property** (`extract_confined`): for every finite sequence of entries of the five kinds
+with arbitrary names and link targets (hard links with or without a body), every
+initial content of the file system (inside and outside the target) and every option
+set with the three SECURE flags (UNLINK / NO_OVERWRITE / SAFE_WRITES / PERM / TIME on or
+off), a whole extraction — every header / data / finish_entry and the deferred fix-ups
+at close — touches nothing outside the directory it started in: the tree outside, every
+inode without a name inside, and the links across the boundary are identical afterwards;
+the working directory and the umask are unchanged. -/
+theorem extract_confined (fl : XFlags) (es : List Entry) (S : Nat → Prop) (pr : Proc)
+    (hfl : SecureFlags fl) (hes : ∀ e ∈ es, EntryStrings e) (hst : Start S pr) :
     Confined S pr ((extractArchive fl es).run pr).2 := by
   have h0 := sem_of_start hst
   have := extractArchive_spec ⟨pr.cwd, S, pr.fs.next, pr.fs.root, pr.fs.files⟩ fl hfl es
-    (fun e he => ⟨(hes e he).1.1, (hes e he).1.2, (hes e he).2⟩) pr h0
+    (fun e he => ⟨(hes e he).1, (hes e he).2⟩) pr h0
   exact ⟨this.inv.tree, this.inv.files, this.inv.refs, (run_env _ pr).1, (run_env _ pr).2⟩
 
 /-- Non-vacuity: the hypotheses hold for a sequence that plants a symlink to the outside, writes and
@@ -332,12 +320,11 @@ example : Confined (fun _ => False) demoProc
     ((extractArchive {} [
         { kind := .symlink, path := [115], link := [46, 46] },                 -- s -> ..
         { kind := .file, path := [115, 47, 111], data := [112] },              -- s/o
-        { kind := .hardlink, path := [104], link := [115, 47, 111] },          -- h => s/o
+        { kind := .hardlink, path := [104], link := [115, 47, 111], data := [100] },  -- h => s/o, with a body
         { kind := .dir, path := [100, 47, 46], mode := 448 },                  -- d/.
         { kind := .symlink, path := [100], link := [47] } ]).run demoProc).2 :=
-  extract_confined_partial {} _ _ demoProc ⟨rfl, rfl, rfl⟩
-    (by intro e he; simp at he; rcases he with rfl | rfl | rfl | rfl | rfl <;>
-        exact ⟨⟨by decide, by decide⟩, by intro h; first | rfl | exact absurd h (by decide)⟩)
+  extract_confined {} _ _ demoProc ⟨rfl, rfl, rfl⟩
+    (by intro e he; simp at he; rcases he with rfl | rfl | rfl | rfl | rfl <;> exact ⟨by decide, by decide⟩)
     ⟨demo_tdir, demo_inside _, demo_wf, ⟨rfl, rfl, rfl⟩⟩
 
 /-- Offending names are refused with ARCHIVE_FAILED, never ARCHIVE_FATAL, without a
